@@ -2,6 +2,7 @@
   C09, whole histories — one record per address in every reachable state.
 -/
 import FocaModel.Proofs.MsInv
+import FocaModel.Proofs.OwnInv
 import FocaModel.Props.C08H
 namespace Foca.C09H
 open Foca
@@ -36,6 +37,33 @@ example : ∃ s, Reachable C08H.exEnv s ∧ s.ms.map (·.id) = [⟨2, 1⟩] := b
   refine ⟨_, Reachable.step (.applyMany [⟨⟨2, 1⟩, 0, .alive⟩] false) ⟨[], []⟩ _ _ _
     (Reachable.step (.applyMany [⟨⟨2, 0⟩, 0, .alive⟩] false) ⟨[.idx 0], []⟩ _ _ _
       (Reachable.init ⟨1, 0⟩ .none C08H.exCfg) rfl) rfl, ?_⟩
+  decide
+
+/-- **The own address is never active.** In every state reachable by any history of public calls — arbitrary
+    datagram bytes, batches of updates naming the own address under any generation, timers, renewals of the own
+    identity — with `change_identity` used as documented (to an identity of the same address, or of an address
+    that has no active record), no record bearing the instance's own address is active, and the probe never
+    targets the own address. -/
+theorem own_address_never_active_always (E : Env) {s : State} (h : ReachableDoc E s) :
+    (∀ m ∈ s.ms, m.id.addr = s.id.addr → m.active = false) ∧
+    (∀ m, s.probe.direct = some m → m.id.addr ≠ s.id.addr) :=
+  (OwnInv.reachable h).2
+
+/-- the induction step, from any state satisfying the invariant -/
+theorem own_address_never_active_step (E : Env) (s : State) (op : Op) (orc : Oracle)
+    (h : OwnInv s) (hop : ChidOk s op) :
+    match step E s op orc with
+    | .done s' _ _ _ => OwnInv s'
+    | .stuck _ => True := OwnInv.step E s op orc h hop
+
+/- The hypothesis on `change_identity` cannot be dropped: switching to the address of a member that is listed as
+   active makes that member's record an active record of the own address, in the code and in the model alike
+   (the correspondence generator makes such calls; the C09 oracle stops judging a history at that point). -/
+
+/-- non-vacuity: a documented history — a batch naming a newer generation of the own address is stored as Down -/
+example : ∃ s, ReachableDoc C08H.exEnv s ∧ s.ms.map (fun m => (m.id, m.st)) = [(⟨1, 5⟩, .down)] := by
+  refine ⟨_, ReachableDoc.step (.applyMany [⟨⟨1, 5⟩, 3, .alive⟩] false) ⟨[.idx 0], []⟩ _ _ _
+    (ReachableDoc.init ⟨1, 0⟩ .none C08H.exCfg) (by intro i p h; cases h) rfl, ?_⟩
   decide
 
 end Foca.C09H
